@@ -158,5 +158,23 @@ Theorem C13_answered_at_epoch_or_drag_free_small_e : forall e0 i ra w m n b ts,
 Proof. exact P_Sgp4AnsweredEpoch.answered_when_frozen3. Qed.
 Print Assumptions C13_answered_at_epoch_or_drag_free_small_e.
 
+(* the same for the whole range eL <= 0.47 of an accepted ordinary orbit (rk >= 1 from the osculating perigee alone, the loop
+   leaves by its seventh test), and hence, in terms of the input: EVERY accepted element set outside the degenerate island
+   (TLE mean motion 6.4 .. 18 rev/day, e0 <= 0.9: then e0 <= 0.467) is answered at its epoch, and at any time when B* = 0 *)
+From PyOrb.proofs Require P_Sgp4Answered47.
+Theorem C13_healthy_is_answered_wide : forall e0 i ra w m n b ts,
+  gen_init_outcome e0 i ra w m n b = InitMode NearNorm 1 ->
+  let El := E e0 i ra w m n b in let T := mkT false ts in let ec := ecl e0 i ra w m n b ts in
+  - (1 / 1000) <= e_unclamped El T -> eL2 El T ec <= 2209 / 10000 -> 1005 / 1000 <= a El T * (1 - sqrt (eL2 El T ec)) ->
+  exists j, (j <= 6)%nat /\ gen_nn1_prop_outcome e0 i ra w m n b ts = PropOk j.
+Proof. exact P_Sgp4Answered47.answered_when_healthy47. Qed.
+Print Assumptions C13_healthy_is_answered_wide.
+
+Theorem C13_accepted_is_answered_at_epoch_or_drag_free : forall e0 i ra w m n b ts,
+  gen_init_outcome e0 i ra w m n b = InitMode NearNorm 1 -> b = 0 \/ ts = 0 -> 64 / 10 <= n <= 18 -> e0 <= 9 / 10 ->
+  exists j, (j <= 6)%nat /\ gen_nn1_prop_outcome e0 i ra w m n b ts = PropOk j.
+Proof. exact P_Sgp4Answered47.answered_at_epoch_wide. Qed.
+Print Assumptions C13_accepted_is_answered_at_epoch_or_drag_free.
+
 Example C13_inhabited : elements_in_range (6703 / 10000000) (516416 / 10000) 0 0 0 (1572125391 / 100000000) 0 -> True.
 Proof. intros _. exact I. Qed.
